@@ -144,14 +144,58 @@ pub struct Ctx<T: 'static> {
 pub struct Flags {
     m: loom::sync::Mutex<u32>,
     cv: loom::sync::Condvar,
+    /// C17: kanal's lock around a loom-tracked cell, and an overlap monitor
+    #[cfg(not(feature = "seam"))]
+    lock: kanal::verif::SpinMutex<loom::cell::UnsafeCell<u64>>,
+    inside: std::cell::Cell<u32>,
+    pub acquired: std::cell::Cell<u64>,
 }
+// loom runs one thread at a time; the plain cells are only touched between
+// scheduling points
+unsafe impl Sync for Flags {}
+unsafe impl Send for Flags {}
 
 impl Flags {
     pub fn new() -> Flags {
         Flags {
             m: loom::sync::Mutex::new(0),
             cv: loom::sync::Condvar::new(),
+            #[cfg(not(feature = "seam"))]
+            lock: kanal::verif::SpinMutex::new(loom::cell::UnsafeCell::new(0)),
+            inside: std::cell::Cell::new(0),
+            acquired: std::cell::Cell::new(0),
         }
+    }
+    /// the lock word is created lazily: the creating thread touches it first
+    pub fn touch_lock(&self) {
+        #[cfg(not(feature = "seam"))]
+        drop(self.lock.lock());
+    }
+    /// value of the protected counter (after all threads are joined)
+    pub fn protected_value(&self) -> u64 {
+        #[cfg(not(feature = "seam"))]
+        {
+            let g = self.lock.lock();
+            return g.with(|p| unsafe { *p });
+        }
+        #[cfg(feature = "seam")]
+        0
+    }
+    #[cfg(not(feature = "seam"))]
+    fn critical_section(&self, g: &loom::cell::UnsafeCell<u64>) {
+        if self.inside.get() != 0 {
+            panic!("KANAL-VERIF-VIOLATION overlap: two threads are inside the critical section");
+        }
+        self.inside.set(1);
+        // loom checks that this write happens-after every earlier access
+        g.with_mut(|p| unsafe { *p += 1 });
+        loom::thread::yield_now();
+        g.with(|p| unsafe { std::ptr::read_volatile(p) });
+        if self.inside.get() != 1 {
+            panic!("KANAL-VERIF-VIOLATION overlap: another thread entered the critical section");
+        }
+        self.inside.set(0);
+        self.acquired.set(self.acquired.get() + 1);
     }
 }
 
@@ -656,6 +700,25 @@ impl<T: Payload> Ctx<T> {
                 RH::Sync(r) => r.is_terminated(),
                 RH::Async(r) => r.is_terminated(),
             })),
+            #[cfg(not(feature = "seam"))]
+            Op::LockL => {
+                let g = self.flags.lock.lock();
+                self.flags.critical_section(&g);
+                drop(g);
+                Out::r(Res::Unit)
+            }
+            #[cfg(not(feature = "seam"))]
+            Op::LockT => {
+                let g = ctl::nowait(NoWait::Lock, || self.flags.lock.try_lock());
+                let got = g.is_some();
+                if let Some(g) = g {
+                    self.flags.critical_section(&g);
+                    drop(g);
+                }
+                Out::r(Res::Bool(got))
+            }
+            #[cfg(feature = "seam")]
+            Op::LockL | Op::LockT => panic!("lock programs run on the default build"),
             Op::Set(i) => {
                 let mut g = self.flags.m.lock().unwrap();
                 *g |= 1 << i;
